@@ -115,25 +115,31 @@ for _w in range(2):
 del _f, _w, _c
 
 
-def _mk_preempt(pto):
-    def lem(max_bytes: int, sp: int, pstep: int):
+def _mk_preempt(pto, pto2=None):
+    def lem(max_bytes: int, sp: int, pstep: int, pstep2: int):
         """
-        pre: 1 <= max_bytes <= 2 and 0 <= sp < 4 and 1 <= pstep <= 24
+        pre: 1 <= max_bytes <= 2 and 0 <= sp < 4 and 1 <= pstep <= 24 and pstep < pstep2 <= 25
         post: True
         """
+        if pto2 is None and pstep2 != pstep + 1:
+            return
         n = 2
         sizes = [1, 1]
         syncs = SYNC_PATTERNS[sp][1:]
-        w = World(max_bytes, 2, 0.2, Client(), pre_step=[pstep], pre_to=[pto])
+        w = World(max_bytes, 2, 0.2, Client(), pre_step=[pstep] if pto2 is None else [pstep, pstep2], pre_to=[pto] if pto2 is None else [pto, pto2])
         for i in range(n):
             w.producer(f"p{i}", Upd(i, sizes[i]), syncs[i])
         w.run()
-        if w.sched.k == 1:
+        if w.sched.k == (1 if pto2 is None else 2):
             h.reach("preempted")
         check_stream(w, n, sizes, syncs, [False] * n, max_bytes, 2)
         h.end()
 
-    lem.__name__ = lem.__qualname__ = f"stream_preempt_to{pto}"
+    lem.__name__ = lem.__qualname__ = f"stream_preempt_to{pto}" + ("" if pto2 is None else f"_then{pto2}")
+    if pto2 is not None:
+        return h.lemma(timeout=2400, thorough_timeout=2400, funcs=FUNCS, reach=("end", "preempted"), tier="thorough",
+                       bounds="as stream_preempt_to*, with TWO preemptions at yield points s1 < s2 <= 25 switching to "
+                              f"{['consumer', 'producer 0', 'producer 1'][pto]} and then to {['consumer', 'producer 0', 'producer 1'][pto2]}")(lem)
     return h.lemma(timeout=300, thorough_timeout=900, funcs=FUNCS, reach=("end", "preempted"),
                    bounds="2 updates of size 1, max_bytes 1 (second overflows) or 2, 4 sync patterns, window 0.2 s; ONE preemption at any of the first 24 "
                           f"yield points switching to thread {['consumer', 'producer 0', 'producer 1'][pto]}")(lem)
@@ -142,7 +148,10 @@ def _mk_preempt(pto):
 for _p in range(3):
     _f = _mk_preempt(_p)
     globals()[_f.__name__] = _f
-del _f, _p
+    for _q in range(3):
+        _f = _mk_preempt(_p, _q)
+        globals()[_f.__name__] = _f
+del _f, _p, _q
 
 
 # "...or with the failure - and never blocks forever": the failing-call lemmas of C06 restated for this property
